@@ -299,5 +299,22 @@ CHECKS["C05"] = dict(
     technique="TLA+ heap enumeration with expected rows; heaps persisted to SQLite and reloaded in fresh sessions through every DAO class of the chain",
 )
 
+CHECKS["C07"] = dict(
+    engine="EQLCore",
+    category="translation_validation",
+    text=("Programs: the translatable vocabulary of EQLCore.tla (family sql: attribute vs literal incl. an Optional attribute "
+          "holding None, relationship paths, membership in a literal collection, a two-variable attribute comparison; all trees "
+          "of depth 1, seeded sample of depth 2) with the reference answer computed by TLC on the persisted world, plus 153 "
+          "queries with three-segment relationship chains whose oracle is the in-memory evaluation. Each program is evaluated "
+          "in memory and translated with eql_to_sql and executed on the SQLite database that holds the persisted objects "
+          "(an(...) and the(...)); an accepted translation must select exactly the reference entities, anything the translator "
+          "cannot express must be an EQLTranslationError."),
+    design_ref="DESIGN.md §4 C07",
+    note=("Trusted: TLC (reference answers), SQLite. Open findings C07-F12 / C07-F25 / C07-F09 attributed by input signature (and, "
+          "for F25, 'only the row whose attribute is None is missing'). Joins between two variables of different classes are "
+          "not generated."),
+    technique="TLC-computed reference answers; each program evaluated in memory and as translated SQL on the persisted objects (three-way comparison)",
+)
+
 NOT_YET = "check not built yet in this build round (specified in DESIGN.md §4; will be claimed when its TLA+ module and binding exist)"
 NOT_APPLICABLE = {}
